@@ -200,8 +200,15 @@ pub fn run(cfg: &Cfg) -> i32 {
             if *info != want {
                 let parts: Vec<&str> = info.splitn(3, '|').collect();
                 let wparts: Vec<&str> = want.splitn(3, '|').collect();
-                let what = if parts[0] != wparts[0] { "session-id" } else if parts[1] != wparts[1] { "version" } else { "capabilities" };
-                rep.violation(&format!("context:{what}-differs"), &format!("reported {info:?}, hello says {want:?}"), wit(json!({})));
+                let mut what = if parts[0] != wparts[0] { "session-id-differs" } else if parts[1] != wparts[1] { "version-differs" } else { "capabilities-differ" };
+                // precisely: the reported URIs are the hello's URIs still XML-escaped
+                let mut esc: Vec<String> = spec.caps.iter().map(|c| xmlstrict::escape_text(c)).collect();
+                esc.sort();
+                esc.dedup();
+                if what == "capabilities-differ" && parts.get(2) == Some(&esc.join(" ").as_str()) {
+                    what = "capability-uri-not-unescaped";
+                }
+                rep.violation(&format!("context:{what}"), &format!("reported {info:?}, hello says {want:?}"), wit(json!({})));
             }
         }
         // both orders must agree with order A
